@@ -78,6 +78,42 @@ theorem scanAll_chain (o : Opts) (src : Bytes) (fuel : Nat) :
           have h2 : off src s ≤ off src s1 := Nat.le_trans ok.lo_le (Nat.le_trans (Nat.le_add_right _ _) ok.le_hi)
           omega
 
+/-- every statement the loop returns lies inside the input. -/
+theorem scanAll_bounded (o : Opts) (src : Bytes) (fuel : Nat) :
+    ∀ (n : Nat) (s : St) (acc : List Stmt) (out : List Stmt), Inv src s → s.pos = 0 →
+      (∀ x ∈ acc, x.pos + x.text.length ≤ off src s) →
+      scanAll true o fuel n s acc = .inr out → ∀ x ∈ out, x.pos + x.text.length ≤ src.length := by
+  intro n
+  induction n with
+  | zero => intro s acc out _ _ _ h; simp [scanAll] at h
+  | succ n ih =>
+    intro s acc out inv hp hall h
+    unfold scanAll at h
+    rcases hs : stmt true o fuel s with ⟨s1, res⟩
+    rw [hs] at h
+    cases res with
+    | inl e =>
+      cases e with
+      | eof =>
+        simp only [Sum.inr.injEq] at h; subst h
+        intro x hx
+        have := hall x (List.mem_reverse.mp hx)
+        have hoff : off src s ≤ src.length := by unfold off; omega
+        omega
+      | err => simp at h
+      | panic => simp at h
+      | fuel => simp at h
+    | inr st =>
+      simp only at h
+      obtain ⟨i1, p1, ok⟩ := (fuelled o fuel).stmt src s s1 st inv hp hs
+      apply ih s1 (st :: acc) out i1 p1 _ h
+      intro x hx
+      rcases List.mem_cons.mp hx with rfl | hx
+      · exact ok.le_hi
+      · have h1 := hall x hx
+        have h2 : off src s ≤ off src s1 := Nat.le_trans ok.lo_le (Nat.le_trans (Nat.le_add_right _ _) ok.le_hi)
+        omega
+
 /-- **scan_positions** (`pos_exact` + `pos_increasing_disjoint`): for every input and every option set,
 if the scan returns statements then each statement's text is exactly the bytes of the input at its
 reported position, the positions are increasing and the statements do not overlap. -/
@@ -90,6 +126,18 @@ theorem scan_positions (o : Opts) (src : Bytes) (stmts : List Stmt) (h : scan tr
     rw [hi] at h
     obtain ⟨inv, hp⟩ := init_inv hi
     exact scanAll_chain o src _ _ s [] stmts inv hp trivial (by simp) h
+
+/-- **scan_bounded**: every returned statement lies inside the input (`Pos + len(Text) ≤ len(input)`):
+a consumer slicing the file at `Pos` never goes out of range. -/
+theorem scan_bounded (o : Opts) (src : Bytes) (stmts : List Stmt) (h : scan true o src = .inr stmts) :
+    ∀ st ∈ stmts, st.pos + st.text.length ≤ src.length := by
+  unfold scan at h
+  cases hi : init true src with
+  | none => rw [hi] at h; cases h
+  | some s =>
+    rw [hi] at h
+    obtain ⟨inv, hp⟩ := init_inv hi
+    exact scanAll_bounded o src _ _ s [] stmts inv hp (by simp) h
 
 /-- consequence in the words of the property: statement `i` ends before statement `j > i` begins. -/
 theorem chain_disjoint {src : Bytes} : ∀ {lo : Nat} {l : List Stmt}, Chain src lo l →
@@ -276,6 +324,46 @@ theorem scan_never_panics (o : Opts) (src : Bytes) : scan true o src ≠ .inl .p
         | err => simp
         | fuel => simp
         | panic => exact absurd rfl this
+
+/-! ### consumers: positions map to lines (`FileReport.Line`, cmd/atlas/internal/migratelint) -/
+
+/-- `FileReport.Line(pos)`: `strings.Count(f.Text[:pos], "\n") + 1` over the raw file bytes. -/
+def lineOf (src : Bytes) (pos : Nat) : Nat := (src.take pos).count 10 + 1
+
+/-- where a statement really starts: one more than the number of line feeds before its first byte,
+whatever the line ends look like (a carriage return is not a line feed, so CRLF files count the same). -/
+theorem line_of_split (pre text rest : Bytes) : lineOf (pre ++ text ++ rest) pre.length = pre.count 10 + 1 := by
+  unfold lineOf
+  rw [List.append_assoc, List.take_left']
+  rfl
+
+/-- **positions_map_to_lines**: for every statement the scanner returns, `Line(Pos)` is the line on
+which the statement's text starts in the file: the file splits as `pre ++ text ++ rest` with
+`pre.length = Pos`, and the reported line is `1 +` the line feeds of `pre`. -/
+theorem positions_map_to_lines (o : Opts) (src : Bytes) (stmts : List Stmt) (h : scan true o src = .inr stmts) :
+    ∀ st ∈ stmts, ∃ pre rest, src = pre ++ st.text ++ rest ∧ pre.length = st.pos ∧
+      lineOf src st.pos = pre.count 10 + 1 := by
+  have hc := scan_positions o src stmts h
+  have key : ∀ (l : List Stmt) (lo : Nat), Chain src lo l → ∀ st ∈ l,
+      (src.drop st.pos).take st.text.length = st.text := by
+    intro l
+    induction l with
+    | nil => intro _ _ st hst; cases hst
+    | cons a l ih =>
+      intro lo hch st hst
+      rcases List.mem_cons.mp hst with rfl | hm
+      · exact hch.2.1
+      · exact ih _ hch.2.2 st hm
+  intro st hst
+  have ht := key stmts 0 hc st hst
+  have hlen : st.pos ≤ src.length := by have := scan_bounded o src stmts h st hst; omega
+  refine ⟨src.take st.pos, (src.drop st.pos).drop st.text.length, ?_, by simp [hlen], ?_⟩
+  · rw [List.append_assoc]
+    conv => lhs; rw [← List.take_append_drop st.pos src]
+    congr 1
+    conv => lhs; rw [← List.take_append_drop st.text.length (src.drop st.pos)]
+    rw [ht]
+  · unfold lineOf; rfl
 
 /-! ### non-vacuity and the pinned commit's counterexamples (tests by evaluation) -/
 
